@@ -338,6 +338,12 @@ def _wrapbol_case(rng, rs, cfg):
         elif x < 0.38:
             acts[k] = ['atbol']
     main = main[:14] + ['lex', 'lex', 'destroy']
+    if rng.random() < 0.35:
+        # the first source is the caller's memory, scanned in place (yy_scan_buffer); the sources that
+        # follow are read *into that memory*, which cannot grow: it is made larger than any token
+        while len(srcs[0]) < 64:
+            srcs[0] = srcs[0] + (srcs[0] or [97]) + [10]
+        main = ['scanbuffer:0:2'] + main
     return dict(srcs=srcs, main=main, acts=acts, wraps=wraps, sched=rtgen.gen_sched(rng),
                 bufsize=rng.choice(rtgen.BUFSIZES))
 
